@@ -107,7 +107,7 @@ def csr_layout(draw, max_regs=6, dws=CSR_DWS, overlaps=True, high=None, huge=Fal
         # particular high address bit is decoded - possibly the top one, with the highest register
         # starting exactly at a power of two
         dw = draw(st.sampled_from([1, 2, 4, 8] if dws is CSR_DWS else list(dws)))
-        k = draw(st.integers(1, 5))
+        k = draw(st.sampled_from([1, 2, 3, 4, 5, 8, 13, 13]))
         if huge and draw(st.integers(0, 1)) == 0:
             k = draw(st.sampled_from([13, 31, 33, 40]))        # aliases that only a very high address bit separates
         slots = sorted(draw(st.lists(st.sampled_from([0, 1, 2, 3, 4, 5, 8, 16, 32]), min_size=2, max_size=max(2, min(max_regs, 5)), unique=True)))
